@@ -14,7 +14,7 @@ import (
 func init() {
 	register(&Def{ID: "C01", Engine: "E1+E2", Run: runC01,
 		Rule: "enumeration: element type x shape x construction/view state x {At,SetAt}; one case = the complete coordinate box [-2,dim+1]^rank plus every wrong arity for that tensor state; " +
-			"non-trivial = the tensor has >=1 element and the sweep executed >=1 in-range and >=1 out-of-range call; distinct by case id; states = distinct canonical tensor states (width, shape, strides, order, old AP, window offset)",
+			"non-trivial = the tensor has >=1 element and the sweep executed >=1 in-range and >=1 out-of-range call; distinct by case id; states = distinct canonical tensor states (width, shape, strides, order, old AP, window offset). Two operation sequences besides: storage the library allocates itself is written, the collector forced three times and every element read back; the same option values are applied to three tensors, two before and one after the first is overwritten (tensors own the storage the library gives them)",
 		Assume: []string{"Go runtime/reflect; the root backing slice handed to WithBacking is owned by the harness and read directly (Data() is not trusted)",
 			"view states are those of the C02/C03 view graph up to the stated depth; that the view denotes the right cells is decided by C02/C03, C01 decides that At/SetAt address exactly those cells"}})
 }
